@@ -441,15 +441,27 @@ class Ctx:
             raise Infra("generator %s [%s]: %s\n%s" % (spec, cfg_path, r.status, r.out[-3000:]))
         seen = set()
         res = []
+        import random as _random
+        rng = _random.Random(self.seed)
+        groups = {}
         for t, rest in r.prints:
             if t != tag:
                 continue
             if rest in seen:
                 continue
             seen.add(rest)
-            res.append(json.loads(parse_tla_string(rest)))
+            h = json.loads(parse_tla_string(rest))
+            if simulate is not None and isinstance(h, list) and h:
+                # in simulation mode TLC evaluates the Emit invariant on EVERY candidate successor
+                # of the last step, so siblings that share all but the last operation are printed
+                # together: keep one per group (seeded choice)
+                groups.setdefault(json.dumps(h[:-1], sort_keys=True), []).append(h)
+                continue
+            res.append(h)
             if limit and len(res) >= limit:
                 break
+        for k in groups:
+            res.append(rng.choice(groups[k]))
         if simulate is None:
             self.states += r.distinct
             self.transitions += r.generated
